@@ -298,7 +298,7 @@ const PARTIALS: [(&str, &str); 5] = [
     ("boom", "pre{% yield %}{{ undefined_in_partial }}post"),
 ];
 
-const TEMPLATES: [&str; 11] = [
+const TEMPLATES: [&str; 12] = [
     // 0: includes the lazily compiled partial twice
     "A{% yield %}{% include 'p' %}{% yield %}{% increment c %}{% yield %}{% include 'p' %}",
     // 1: broken partial
@@ -325,6 +325,9 @@ const TEMPLATES: [&str; 11] = [
     // 10: break / continue with text *after* the interrupt in the same iteration, and after the loop
     //     (an interrupt that is noticed late, or by the wrong render, prints the text)
     "{% for i in (1..3) %}{{ i }}{% if i == 2 %}{% continue %}{% endif %}a{% endfor %}|{% for i in (1..3) %}{% if i == 2 %}{% break %}{% endif %}b{% yield %}{% endfor %}|{% for i in (1..2) %}{% for j in (1..2) %}{% break %}x{% endfor %}y{% endfor %}z",
+    // 11: parsed concurrently by two threads (never parsed before in this world): named and unnamed cycle groups,
+    //     filters with arguments, nested blocks, an include - anything the *parser* might intern, cache or number
+    "{% cycle 'g': 'a', 'b' %}-{% cycle 'g': 'a', 'b' %}|{% cycle 'h': 1, 2 %}{% cycle 'h': 1, 2 %}|{% cycle 'x', 'y' %}{% cycle 'x', 'y' %}|{% for i in (1..2) %}{% cycle 'g': 'a', 'b' %}{{ i | plus: 1 | append: who }}{% endfor %}{% include 'm' %}",
 ];
 
 struct World {
@@ -463,6 +466,7 @@ fn harnesses() -> Vec<Harness> {
         Harness { name: "H8", what: "one template with every argument position dynamic (partial name, range bound, limit, cycle group, case target, date format, cols), two data objects", plan: vec![vec![Op::Render(8)], vec![Op::RenderB(8)]] },
         Harness { name: "H9", what: "two threads render a template whose loops break / continue with text after the interrupt (interrupt state must be per render)", plan: vec![vec![Op::Render(10)], vec![Op::Render(10)]] },
         Harness { name: "H10", what: "four threads first-touch the same not-yet-compiled partial at once (more contenders than any other harness)", plan: vec![vec![Op::Render(6)], vec![Op::Render(6)], vec![Op::StoreTryGet("m")], vec![Op::Render(6)]] },
+        Harness { name: "H11", what: "two threads parse the same never-seen template text with the shared parser at once, then render their copies (state the parser keeps across parse calls: interning, numbering, caches)", plan: vec![vec![Op::ParseRender(11)], vec![Op::ParseRender(11)]] },
         Harness { name: "H5", what: "a render that fails midway (partial error, missing partial) while another renders", plan: vec![vec![Op::Render(4)], vec![Op::Render(3)], vec![Op::Render(5)]] },
     ]
 }
@@ -750,7 +754,7 @@ fn main() {
     // counterexample found has the fewest preemptions
     let tasks: Vec<(usize, usize, bool)> = if tier.thorough() {
         let mut t = vec![(0, 0, true)];
-        for (hi, maxb) in [(1usize, 5usize), (2, 4), (3, 4), (4, 3), (5, 4), (6, 5), (7, 3), (8, 3), (9, 2), (10, 3)] {
+        for (hi, maxb) in [(1usize, 5usize), (2, 4), (3, 4), (4, 3), (5, 4), (6, 5), (7, 3), (8, 3), (9, 2), (10, 3), (11, 3)] {
             for b in 0..=maxb {
                 t.push((hi, b, false));
             }
@@ -758,7 +762,7 @@ fn main() {
         t
     } else {
         let mut t = vec![];
-        for (hi, maxb) in [(0usize, 3usize), (1usize, 2usize), (2, 2), (3, 2), (4, 1), (5, 2), (6, 2), (7, 1), (8, 2), (9, 1), (10, 1)] {
+        for (hi, maxb) in [(0usize, 3usize), (1usize, 2usize), (2, 2), (3, 2), (4, 1), (5, 2), (6, 2), (7, 1), (8, 2), (9, 1), (10, 2), (11, 1)] {
             for b in 0..=maxb {
                 t.push((hi, b, false));
             }
